@@ -47,6 +47,8 @@ type c06case struct {
 	seq     []int
 	perturb int  // 0 none, 1 yields, 2 yields + micro-sleeps
 	sub     bool // the gateway, its catch events and the branch tasks sit inside an embedded sub-process
+	// forkdown: behind every catch event a parallel fork: one path straight to an end event (listed first), the task on the other
+	forkdown bool
 }
 
 func c06seqs(k, maxLen int) [][]int {
@@ -98,6 +100,12 @@ func c06cases(tier string) []c06case {
 		// (sequential deliveries only: inner termination traces are not relayed to the instance's tracer, so which way a
 		// racing loser went cannot be read off the recorded history)
 		cs = append(cs, c06case{k: 2, mode: "seq", seq: s, sub: true})
+	}
+	// the alternatives' branches fork behind their catch events (sequential deliveries, every alternative winning once)
+	for k := 2; k <= 3; k++ {
+		for _, s := range c06seqs(k, 2) {
+			cs = append(cs, c06case{k: k, mode: "seq", seq: s, forkdown: true})
+		}
 	}
 	if tier == "thorough" {
 		// seeded perturbation of every schedule point, for the racy delivery modes
@@ -159,8 +167,21 @@ func c06run(out *rec.Out, c c06case, rng *rec.Rng, stats map[string]int) {
 		ce.Defs = []eng.EventDef{{Kind: c06kinds[j], Name: c06names[j]}}
 		t := g.Add("task", fmt.Sprintf("T%d", j), par)
 		g.Connect(gw, ce, nil)
-		g.Connect(ce, t, nil)
+		if c.forkdown {
+			// the branch of every alternative FORKS behind its catch event: the path the winning token continues on ends
+			// at once, the task sits on the forked sibling path (the winner's branch is all of it, not just its first path)
+			f := g.Add("parallelGateway", fmt.Sprintf("F%d", j), par)
+			es := g.Add("endEvent", fmt.Sprintf("es%d", j), par)
+			g.Connect(ce, f, nil)
+			g.Connect(f, es, nil)
+			g.Connect(f, t, nil)
+		} else {
+			g.Connect(ce, t, nil)
+		}
 		g.Connect(t, en, nil)
+	}
+	if c.forkdown {
+		stats["alternatives_whose_branch_forks"]++
 	}
 	if c.sub {
 		ost := g.Add("startEvent", "ostart", "")
@@ -169,7 +190,7 @@ func c06run(out *rec.Out, c c06case, rng *rec.Rng, stats map[string]int) {
 		g.Connect(subNode, oen, nil)
 		stats["gateway_inside_a_sub_process"]++
 	}
-	out.Begin("c06", c.k, c.mode, c06seqString(c.seq), c.perturb, rec.B(c.sub))
+	out.Begin("c06", c.k, c.mode, c06seqString(c.seq), c.perturb, rec.B(c.sub), rec.B(c.forkdown))
 	defer out.End()
 
 	var ctl *sched.Controller
